@@ -89,3 +89,23 @@ package builder
 //@ emits [C01,C07] "StateSymStack.slice(topIndex-%d , StackPointer)" arg1 == len(b.vnode.G.ProductoinRules[i].RighPart)
 //@ emits [C01,C07] "PopStateSym(%d);" arg1 == len(b.vnode.G.ProductoinRules[i].RighPart)
 //@ loop 0: invariant 1 <= i
+
+// C11 / C17: the code-to-symbol switch and the two trace tables
+//@ func (*TemplateBuilder).buildTranslate
+//@ props C11 C17
+//@ requires b != nil && wfBuilder(b.vnode) && len(b.vnode.rules) + 1 == len(b.vnode.G.ProductoinRules)
+//@ requires forall i int :: 0 <= i && i < len(b.vnode.rules) ==> b.vnode.rules[i] != nil && b.vnode.rules[i].LeftPart != nil &&
+//@     (forall k int :: 0 <= k && k < len(b.vnode.rules[i].RighPart) ==> b.vnode.rules[i].RighPart[k] != nil)
+// translate: exactly the terminals get a case, token code -> symbol id
+//@ emits [C11] "\tcase %d:\n \tconv = %d\n" arg1 == sy.Value
+//@ emits [C11] "\tcase %d:\n \tconv = %d\n" arg2 == sy.ID
+//@ emits [C11] "\tcase %d:\n \tconv = %d\n" assert !sy.IsNonTerminator
+// TraceTranslate: symbol id -> display name
+//@ emits [C17] `conv = \"%s\"` arg1 == sy.ID
+//@ emits [C17] `conv = \"%s\"` arg2 == parser.RemoveTempName(sy.Name)
+// TraceReduce: case i prints the text of rule i, i.e. visitor rule i-1 (rule 0 is the augmented start rule)
+//@ emits [C17] "\t\tcase %d: \n" arg1 == i
+//@ emits [C17] "%s -> %s" arg1 == "use Reduce:" + parser.RemoveTempName(b.vnode.rules[i-1].LeftPart.Name)
+//@ loop 0: invariant true
+//@ loop 2: invariant 1 <= i
+//@ loop 3: invariant oneRule == b.vnode.rules[i-1] && 1 <= i && i < len(b.vnode.G.ProductoinRules)
